@@ -26,6 +26,13 @@ on Model/CubeCounts.v + Proofs/CubeCounts*.v).
                full-shape cube of the filtered survey.
     Attributes excluded from a comparison are listed in SKIP_* below with the reason and are
     recorded in the evidence.
+
+Open finding (model faithful to the code, theorem C06_augment_weighted_count_refuted, first case of
+every run = its witness): known_findings.d/C06-augment-overwrites-weighted-count.json - an augmented
+WEIGHTED single-column cube gets its count measure overwritten by the unweighted counts; only that
+class (section augment, relational oracle, weighted, augmented) is reported as KNOWN-FINDING.
+The 3-D column_index baseline defect (C16-3d-baseline-wrong-table) is repaired in /repo: the `rel`
+oracle requires equality of column_index as of every other attribute.
 """
 import copy
 import json
